@@ -212,6 +212,45 @@ let cmd_cfg args =
       | _ -> ()) args;
   emit "cfg"
 
+(* the index file of a storage blob, byte for byte (SHA-256 field and the two checksums of every leaf header masked on
+   both sides): header, filter section (range + bloom of the blob's keys), tree meta, tree, leaves -- Index/Bytes.v
+   index_file_bytes on the records the file describes *)
+let index_bytes_of_blob (b : blob) : n list option =
+  let k = !st_k in
+  match b.b_idxfile with
+  | None -> None
+  | Some (sz, _) ->
+    let szi = int_of_n sz in
+    let off = ref 20 in
+    let pm = ref [] in
+    let rg = ref range_empty in
+    let bl = ref (bloom0 ()) in
+    List.iter (fun r ->
+        let len = 57 + k + int_of_n r.r_msize + int_of_n r.r_dlen in
+        if !off + len <= szi then begin
+          let h = { ih_key = r.r_key; ih_ts = r.r_ts; ih_del = r.r_del; ih_msize = r.r_msize; ih_dsize = r.r_dlen; ih_off = n_of_int !off } in
+          pm := pm_push !pm h; rg := range_add !rg r.r_key;
+          (match !bl with Some x -> bl := Some (bloom_add bloom_hash x (be_bytes (nat_of_int k) r.r_key)) | None -> ());
+          off := !off + len end) b.b_recs;
+    let meta = filters_bytes (n_of_int k) !rg (match !bl with Some x -> bloom_to_raw x | None -> None) in
+    let bytes = index_file_bytes (n_of_int k) (List.init 32 (fun _ -> N0)) true meta !pm sz in
+    let arr = Array.of_list bytes in
+    let cnt = List.fold_left (fun a (_, v) -> a + List.length v) 0 !pm in
+    let rhs = 57 + k in
+    let start = Array.length arr - cnt * rhs in
+    for i = 0 to cnt - 1 do let e = start + (i + 1) * rhs in for j = e - 8 to e - 1 do arr.(j) <- N0 done done;
+    Some (Array.to_list arr)
+let find_blob id =
+  let all = closed_blobs !st @ (match !st.s_active with Some b -> [b] | None -> []) in
+  match List.filter (fun b -> int_of_n b.b_id = id) all with b :: _ -> Some b | [] -> None
+(* an index file that Index::from_file rejects (any proper prefix, cleared written flag, other key size, other blob
+   size, other magic: theorems C03_*_rejected) is as good as removed: the model's ORmIndex *)
+let damaged_idx : (int, unit) Hashtbl.t = Hashtbl.create 8     (* index files whose bytes on disk the model no longer follows *)
+let reject_index id =
+  Hashtbl.replace damaged_idx id ();
+  if !st.s_open then tainted_ref := true
+  else st := fst (step (n_of_int !st_k) !st_cfg !st (ORmIndex (n_of_int id)))
+
 let storage_handlers = [
   ("cfg", cmd_cfg);
   ("open", (fun _ -> do_op "open" (OOpen !st_lazy)));
@@ -243,7 +282,12 @@ let storage_handlers = [
   ("counts", (fun _ -> do_op "counts" OCounts));
   ("close", (fun _ -> do_op "close" OClose));
   ("drop", (fun _ -> do_op "drop" ODrop));
-  ("rmindex", (function [id] -> do_op "rmindex" (ORmIndex (n_of_string id)) | _ -> failwith "rmindex args"));
+  ("rmindex", (function
+       | [id] when Hashtbl.mem damaged_idx (int_of_string id) ->
+         (* the damaged file is still on disk although the model already treats it as removed *)
+         st := fst (step (n_of_int !st_k) !st_cfg !st (ORmIndex (n_of_string id))); emit "*"
+       | [id] -> do_op "rmindex" (ORmIndex (n_of_string id))
+       | _ -> failwith "rmindex args"));
   ("filehex", (function
        | ["blob"; id] ->
          let id = int_of_string id in
@@ -251,40 +295,10 @@ let storage_handlers = [
          (match List.filter (fun b -> int_of_n b.b_id = id) all with
           | b :: _ -> emit ("filehex " ^ hex_of_bytes (blob_file_bytes (n_of_int !st_k) b.b_recs))
           | [] -> emit "filehex absent")
-       | ["index"; id] when not !tainted_ref && filters_known () ->
-         (* the index file of a storage blob, byte for byte (SHA-256 field masked on both sides): header, filter section
-            (range + bloom of the blob's keys), tree meta, tree, leaves -- Index/Bytes.v index_file_bytes on the records
-            the file describes *)
-         let id = int_of_string id in
-         let k = !st_k in
-         let all = closed_blobs !st @ (match !st.s_active with Some b -> [b] | None -> []) in
-         (match List.filter (fun b -> int_of_n b.b_id = id) all with
-          | b :: _ ->
-            (match b.b_idxfile with
-             | None -> emit "filehex absent"
-             | Some (sz, _) ->
-               let szi = int_of_n sz in
-               let off = ref 20 in
-               let pm = ref [] in
-               let rg = ref range_empty in
-               let bl = ref (bloom0 ()) in
-               List.iter (fun r ->
-                   let len = 57 + k + int_of_n r.r_msize + int_of_n r.r_dlen in
-                   if !off + len <= szi then begin
-                     let h = { ih_key = r.r_key; ih_ts = r.r_ts; ih_del = r.r_del; ih_msize = r.r_msize; ih_dsize = r.r_dlen; ih_off = n_of_int !off } in
-                     pm := pm_push !pm h; rg := range_add !rg r.r_key;
-                     (match !bl with Some x -> bl := Some (bloom_add bloom_hash x (be_bytes (nat_of_int k) r.r_key)) | None -> ());
-                     off := !off + len end) b.b_recs;
-               let meta = filters_bytes (n_of_int k) !rg (match !bl with Some x -> bloom_to_raw x | None -> None) in
-               let bytes = index_file_bytes (n_of_int k) (List.init 32 (fun _ -> N0)) true meta !pm sz in
-               (* the two checksums at the end of every leaf header are masked on both sides *)
-               let arr = Array.of_list bytes in
-               let cnt = List.fold_left (fun a (_, v) -> a + List.length v) 0 !pm in
-               let rhs = 57 + k in
-               let start = Array.length arr - cnt * rhs in
-               for i = 0 to cnt - 1 do let e = start + (i + 1) * rhs in for j = e - 8 to e - 1 do arr.(j) <- N0 done done;
-               emit ("filehex " ^ hex_of_bytes (Array.to_list arr)))
-          | [] -> emit "filehex absent")
+       | ["index"; id] when not !tainted_ref && filters_known () && not (Hashtbl.mem damaged_idx (int_of_string id)) ->
+         (match find_blob (int_of_string id) with
+          | Some b -> (match index_bytes_of_blob b with Some bytes -> emit ("filehex " ^ hex_of_bytes bytes) | None -> emit "filehex absent")
+          | None -> emit "filehex absent")
        | _ -> emit "*"));
   ("trace", (function ["on"] -> emit "trace on" | ["off"] -> emit "trace off" | _ -> emit "*"));
   ("tracecheck", (fun _ -> emit "tracecheck ok"));
@@ -298,7 +312,24 @@ let storage_handlers = [
   ("nop", (fun _ -> emit "nop"));
   ("cfgnext", (function [kv] -> (match String.split_on_char '=' kv with ["init"; v] -> st_lazy := (v = "lazy") | _ -> ()); emit "cfgnext" | _ -> emit "cfgnext"));
   ("flip", (fun _ -> emit "*"));
-  ("patch", (fun _ -> emit "*"));
+  ("patch", (function
+       | ["index"; id; pos; hex] when not !tainted_ref && filters_known () ->
+         (* header fields that validation checks: magic (0), written flag + version (72), key size (73), blob size (75) *)
+         let pos = int_of_string pos in
+         (match find_blob (int_of_string id) with
+          | Some b ->
+            (match index_bytes_of_blob b with
+             | Some bytes ->
+               let nb = bytes_of_hex hex in
+               let old = List.filteri (fun i _ -> i >= pos && i < pos + List.length nb) bytes in
+               if pos + List.length nb > List.length bytes then ()        (* harness: `patch absent`, nothing changes *)
+               else if old = nb then ()
+               else if pos = 0 || pos = 72 || pos = 73 || pos = 75 then reject_index (int_of_string id)
+               else tainted_ref := true
+             | None -> ())
+          | None -> ());
+         emit "*"
+       | _ -> tainted_ref := true; emit "*"));
   ("trunc", (function
        | ["blob"; id; n] when not !tainted_ref ->
          (* crash model: the blob file is cut to n bytes. What Blob::from_file makes of it is computed by the byte-level
@@ -346,6 +377,14 @@ let storage_handlers = [
             spec_pending := (match r with
                 | ROk hs -> Printf.sprintf "sc served %d" (List.length hs)
                 | RFail _ -> (match dispose r with DInitFails -> "sc initfails 0" | _ -> "sc quarantined 0"))
+          | None -> ());
+         emit "*"
+       | ["index"; id; n] when not !tainted_ref && filters_known () ->
+         (match find_blob (int_of_string id) with
+          | Some b ->
+            (match index_bytes_of_blob b with
+             | Some bytes -> if int_of_string n < List.length bytes then reject_index (int_of_string id)
+             | None -> ())
           | None -> ());
          emit "*"
        | _ -> tainted_ref := true; emit "*"));
@@ -644,7 +683,7 @@ let run_script path outpath =
          | c :: args when !hard_taint && c <> "cfg" -> emit "*"
          | c :: args when !tainted && c <> "cfg" && c <> "tool" && c <> "flip" && c <> "trunc" -> emit "*"
          | c :: args ->
-           if c = "flip" || c = "patch" then tainted := true;
+           if c = "flip" then tainted := true;
            (match List.assoc_opt c !handlers with
             | Some h -> (try h args with
                 | Not_found -> emit ("MODEL-ERROR not_found: " ^ line)
@@ -664,7 +703,7 @@ let main () =
   let n = Array.length Sys.argv in
   let i = ref 1 in
   while !i + 1 < n do
-    tainted := false; hard_taint := false; auto_q := true; st_ignore := false; st_group := 2; st_bloom_cfg := None; st_bloom_bits := None; hier_tr := ch_new (nat_of_int 2); hier_valid := true; Hashtbl.reset images; Hashtbl.reset outs; pending_evs := []; Hashtbl.reset probes; Hashtbl.reset blooms; Hashtbl.reset raws; st := init_storage; st_k := 4; st_lazy := false; st_validate := false;
+    tainted := false; hard_taint := false; auto_q := true; Hashtbl.reset damaged_idx; st_ignore := false; st_group := 2; st_bloom_cfg := None; st_bloom_bits := None; hier_tr := ch_new (nat_of_int 2); hier_valid := true; Hashtbl.reset images; Hashtbl.reset outs; pending_evs := []; Hashtbl.reset probes; Hashtbl.reset blooms; Hashtbl.reset raws; st := init_storage; st_k := 4; st_lazy := false; st_validate := false;
     st_cfg := { c_dup = true; c_maxrec = n_of_int 1000000; c_maxsize = n_of_int 1000000000 };
     run_script Sys.argv.(!i) Sys.argv.(!i + 1);
     i := !i + 2
